@@ -471,7 +471,7 @@ def run_c10(ctx):
     ctx.build(["yp"])
     def replay():
         g = ctx.tlc("YangTreeGen", "YangTreeGen.cfg", workers=12, timeout=850, heap="10g",
-                    consts={"Size": '"quick"' if q else '"thorough"', "NFam": 24, "NTrees": 0 if q else 2, "NLay": 4 if q else 20},
+                    consts={"Size": '"quick"' if q else '"thorough"', "NFam": 24, "NTrees": 0 if q else 1, "NLay": 4 if q else 16},
                     extra=["-seed", str(ctx.seed)])
         files = vec_files(g["dir"])
         res = ctx.path("res10.ndjson")
@@ -569,7 +569,7 @@ def run_c10(ctx):
                            "re-laid-out forms of them were judged by the spec reading the same text")
     return ctx.finish(cov, [
         "keywords: prefixed extension statements (free shape) plus container/leaf/description/type in valid positions, inside a minimal module",
-        "byte columns are judged only where the line prefix is ASCII; implicit nodes created lazily by ChildrenByType are not triggered",
+        "byte columns of keywords are judged only where the line prefix is ASCII; the implicit case the parser wraps around a shorthand member of a choice counts as the member (same position, same argument), order and identity of the children are judged",
         "a text the spec cannot read as one statement, and a text the code rejects on its own, are not judged here (C09)",
     ])
 
@@ -585,7 +585,7 @@ MANIFEST = {
              "hang and the leak. Every class string to length 3/4 in several spellings, sampled longer texts and repository YANG cut at random points "
              "are parsed by the real code under a watchdog with a goroutine dump (error names the input and a position inside it, or root set), and "
              "the hook events of every call are validated against the mechanism by YangLexerTrace.",
-             note="needs pending/yangparse/01-lexer-hooks.patch; token boundaries irrelevant to C07 are accepted either way in the trace", design="4 C07", technique=YP),
+             note="needs the lexer hooks; token boundaries irrelevant to C07 are accepted either way in the trace; a slice of the calls runs under the Go race detector (ypt built with -race)", design="4 C07", technique=YP),
  "C08": dict(text="YangString.tla defines the RFC 6020 6.1.3 value of a string argument (quote column with tab = 8, indentation and trailing-blank "
              "stripping, the four escapes, concatenation); TLC enumerates layouts (quote column, indents of spaces and tabs around it, trailing blanks, "
              "LF/CRLF, empty and blank lines, escapes, comments inside quotes, trivia around +) with their values; the real parser's "
@@ -595,5 +595,5 @@ MANIFEST = {
              "back (intended lexer + RFC 6020 statement grammar); TLC checks the reader inverts the rendering on every generated layout; the real "
              "parser's tree, walked through the public API, must equal the source tree (keywords, decoded arguments, order, nesting, line:column) and "
              "all layouts of one tree must agree up to positions; the same raw multi-line string at several quote columns must decode per occurrence; repository YANG and TLC's re-laid-out forms are judged by the spec reading the same text.",
-             note="open finding: a comment directly after an unquoted word is swallowed into the word", design="4 C10", technique=YP),
+             note="open finding: a comment directly after an unquoted word is swallowed into the word; implicit case wrappers count as their member", design="4 C10", technique=YP),
 }
